@@ -278,6 +278,7 @@ impl<'a> Ev<'a> {
                 v.extend(self.bytes(b)?);
                 v
             }
+            BytesE::PolicyName(_, hash) => hash.clone(),
             BytesE::InputField(i, idx, _) => match self.input_datum(i)? {
                 PData::Constr(_, fs) => match fs.get(*idx) {
                     Some(PData::Bytes(b)) => b.clone(),
